@@ -293,6 +293,16 @@ impl jsonrpsee_server::IdProvider for WideIds {
 	}
 }
 
+/// Distinct string subscription ids of at least the given width (`sss…s<n>`).
+#[derive(Debug)]
+pub struct WideCounterIds(pub usize, pub std::sync::atomic::AtomicU64);
+impl jsonrpsee_server::IdProvider for WideCounterIds {
+	fn next_id(&self) -> jsonrpsee_types::SubscriptionId<'static> {
+		let n = self.1.fetch_add(1, std::sync::atomic::Ordering::SeqCst);
+		jsonrpsee_types::SubscriptionId::Str(format!("{}{n}", "s".repeat(self.0)).into())
+	}
+}
+
 /// Deterministic subscription ids for harnesses.
 #[derive(Debug)]
 pub struct CounterIds(pub std::sync::atomic::AtomicU64);
